@@ -1049,6 +1049,8 @@ def translate_source(src: str, specs: list, module_name: str, rel: str):
         try:
             fdef = _find_function(tree, spec['qualname'])
             info['lines'] = '%d-%d' % (fdef.lineno, fdef.end_lineno)
+            import py2lean_prepass               # desugaring into the subset (identity when nothing applies)
+            fdef = py2lean_prepass.run(fdef, tree, spec, info)
             text = FnTranslator(fdef, spec, module_defs).emit()
         except (Unsupported, _Unknown, RecursionError) as e:
             # outside the subset: no definition is emitted, so the tie theorem of this function stops
